@@ -220,6 +220,11 @@ func RootObj(info *types.Info, e ast.Expr) types.Object {
 
 // NilCheck decomposes `x == nil` / `x != nil`; eq reports the operator.
 func NilCheck(info *types.Info, e ast.Expr) (operand ast.Expr, eq bool, ok bool) {
+	// !(x == nil) is x != nil
+	if u, isNot := ast.Unparen(e).(*ast.UnaryExpr); isNot && u.Op == token.NOT {
+		x, eq2, ok2 := NilCheck(info, u.X)
+		return x, !eq2, ok2
+	}
 	b, isb := ast.Unparen(e).(*ast.BinaryExpr)
 	if !isb || (b.Op != token.EQL && b.Op != token.NEQ) {
 		return nil, false, false
